@@ -21,12 +21,17 @@ from . import master as M
 VERIF = M.VERIF
 
 
-def determinism(seed, jobs):
+def determinism(seed, jobs, only=None):
     bad = 0
     for prop in sorted(M.PROPS):
+        if only and prop not in only:
+            continue
         cfg = json.loads(json.dumps(M.PROPS[prop]))
         q = cfg["quick"]
-        q["batches"] = min(q["batches"], 7 if prop == "C20" else 6)
+        q["batches"] = min(q["batches"], 8 if prop == "C20" else 6)
+        # a wall-clock cut (one worker on a loaded machine) is not a
+        # difference between executions
+        q["wall"] = 7200
         q["units"] = min(q["units"], 12 if prop not in ("C03", "C19", "C20",
                                                         "C14") else 1)
         for leg in q.get("legs") or []:
@@ -113,8 +118,9 @@ def mutants(seed, jobs, only=None):
 
 
 def main(target, seed, jobs):
-    if target == "selftest-determinism":
-        return determinism(seed, jobs)
+    if target.startswith("selftest-determinism"):
+        only = target.split(":", 1)[1].split(",") if ":" in target else None
+        return determinism(seed, jobs, only)
     if target == "selftest-fidelity":
         from . import fidelity
         return fidelity.main()
